@@ -193,15 +193,19 @@ def audit(audit_file, allow_axioms=(), timeout=600):
     n_closed = len(re.findall(r"Closed under the global context", out))
     n_ax_blocks = 0
     inax = False
-    for line in out.split("\n"):
+    lines = out.split("\n")
+    for k, line in enumerate(lines):
         if line.startswith("Axioms:"):
             inax = True
             n_ax_blocks += 1
             continue
         if inax:
-            m = re.match(r"^([A-Za-z_][\w.']*)\s*(:|$)", line)
+            m = re.match(r"^([A-Za-z_][\w.']*)\s*:", line)
+            m2 = re.match(r"^([A-Za-z_][\w.']*)\s*$", line)
             if m:
                 axioms.add(m.group(1))
+            elif m2 and k + 1 < len(lines) and re.match(r"^\s+:", lines[k + 1]):
+                axioms.add(m2.group(1))      # name alone on its line, type on the next
             elif line.startswith(" ") or line.strip() == "":
                 continue
             else:
